@@ -314,6 +314,12 @@ def _step(s: Ref, mn: str, ops: list) -> None:
         def run(d_addr0, s_addr0):
             da, sa = d_addr0, s_addr0
             d_int, s_int = da >= IMEM, sa >= IMEM
+            # an EXTERNAL block that runs out of 0..0xFFFFF anywhere in the transfer is the (recorded) external-space case,
+            # whatever the internal side does
+            for i in range(n):
+                for cur, internal in ((da + i * dstep, d_int), (sa + i * sstep, s_int)):
+                    if not internal and not (0 <= cur <= PTR_MASK):
+                        raise Unjudged("block_leaves_its_address_space")
             for _ in range(n):
                 for cur, internal in ((da, d_int), (sa, s_int)):
                     if internal and not (IMEM <= cur <= IMEM + 0xFF):
